@@ -27,8 +27,11 @@ type likeCase struct {
 	// Seq: explicit cell sequence (core cells in all sequences of 3); overrides Order
 	Seq []string `json:"seq,omitempty"`
 	// Upper: direct comparison of the zero-alloc ToUpper with strings.ToUpper over Seq with one shared buffer
-	Upper  bool `json:"upper,omitempty"`
-	BufLen int  `json:"buf_len,omitempty"`
+	// Degenerate: the pattern is applied where no cell needs to be looked at: "zero" (no rows), "allnull",
+	// "or-all" (an Or whose earlier sub-clause already selected every row), "filtered-null" (a frame filtered down to nulls)
+	Degenerate string `json:"degenerate,omitempty"`
+	Upper      bool   `json:"upper,omitempty"`
+	BufLen     int    `json:"buf_len,omitempty"`
 }
 
 var c18cells []string
@@ -151,6 +154,9 @@ func runLikeCase(c likeCase) *core.Failure {
 		}
 		return nil
 	}
+	if c.Degenerate != "" {
+		return runLikeDegenerate(c)
+	}
 	var qf qframe.QFrame
 	if c.Seq != nil {
 		ptrs := make([]*string, len(c.Seq))
@@ -240,6 +246,46 @@ func runLikeCase(c likeCase) *core.Failure {
 	return nil
 }
 
+// runLikeDegenerate: validity of the pattern must be reported (and a valid pattern accepted) even
+// when no cell is evaluated; string and enum columns must agree.
+func runLikeDegenerate(c likeCase) *core.Failure {
+	a, b := "ab", "cd"
+	var ptrs []*string
+	switch c.Degenerate {
+	case "zero":
+		ptrs = []*string{}
+	case "allnull":
+		ptrs = []*string{nil, nil}
+	default:
+		ptrs = []*string{&a, nil, &b}
+	}
+	ids := make([]int, len(ptrs))
+	var opts []newqf.ConfigFunc
+	if c.Enum {
+		opts = append(opts, newqf.Enums(map[string][]string{"s": nil}))
+	}
+	qf := qframe.New(map[string]interface{}{"s": ptrs, "id": ids}, opts...)
+	leaf := qframe.Filter{Column: "s", Comparator: c.Cmp, Arg: c.Pattern}
+	var res qframe.QFrame
+	switch c.Degenerate {
+	case "or-all":
+		res = qf.Filter(qframe.Or(qframe.Filter{Column: "id", Comparator: "=", Arg: 0}, leaf))
+	case "filtered-null":
+		res = qf.Filter(qframe.Filter{Column: "s", Comparator: "isnull"}).Filter(leaf)
+	default:
+		res = qf.Filter(leaf)
+	}
+	_, perr := model.LikeMatch(c.Pattern, "", c.Cmp == "like")
+	what := fmt.Sprintf("Filter(s %s %q) on a %s column, degenerate case %s", c.Cmp, c.Pattern, map[bool]string{false: "string", true: "enum"}[c.Enum], c.Degenerate)
+	if perr != nil && res.Err == nil {
+		return core.Failf("%s: the pattern is not a valid regular expression (%v) but no error was reported", what, perr)
+	}
+	if perr == nil && res.Err != nil {
+		return core.Failf("%s: unexpected error %v", what, res.Err)
+	}
+	return nil
+}
+
 func c18Patterns() []string {
 	alpha := append(append([]string{}, c18Sigma...), "%")
 	var out []string
@@ -304,6 +350,18 @@ func c18Run(ctx *core.Ctx) {
 			}
 		})
 	}
+	// degenerate columns: no cell to look at; the pattern's validity must still be decided
+	for _, p := range []string{"a(b", "%[x%", "x)y", "(", "a", "%", "a.*", ""} {
+		for _, cmp := range []string{"like", "ilike"} {
+			for _, deg := range []string{"zero", "allnull", "or-all", "filtered-null"} {
+				for _, en := range []bool{false, true} {
+					if ctx.Mine() {
+						exec(likeCase{Pattern: p, Cmp: cmp, Degenerate: deg, Enum: en}, "degenerate")
+					}
+				}
+			}
+		}
+	}
 	// buffer reuse: a 14-cell core in all sequences of 3, for the case-insensitive matchers and for ToUpper itself
 	coreCells := []string{"a", "\u0131", "\u0250", "a\u0131b", "\u0250\u0250\u0250\u0250", "aaaaaaaaa", "aaaaaaaaa\u0131", "aaaaaaaaaaa\u0250", "\u00dfa", "a\u0080", "\u017f\u017f\u017f\u017f\u017f\u017f", "", "A", "bbbbbbbbbbbbbbbbbbbb\u0250"}
 	corePats := []string{"a%", "%\u0131", "%A%", "aib", "%\u0250", "s%", "%\u0080"}
@@ -336,7 +394,7 @@ func init() {
 		Setup: func() { c18Env() },
 		Level: "model_checking",
 		Rule: "case = (pattern, comparator, column kind, cell order). Cells: ALL strings of length <= 3 over a 13-code-point alphabet (a, A, b, é, É, ß, dotless i U+0131 (upper one byte shorter), long s U+017F, U+0250 (upper one byte longer), C1 control U+0080, Kelvin sign U+212A, '.', '(') plus a^k+c and c+b^k for k = 4..14 (lengths around the matcher's 10-byte buffer), and one null; " +
-			"patterns: ALL strings of length <= 3 over the alphabet plus '%' (incl. empty, %, %%, regex metacharacters, invalid regex) plus long patterns; comparators like and ilike; as string column (cells in ascending, descending and interleaved length order, because the case-insensitive matcher reuses one buffer across cells) and as enum column in chunks of 254 values, each followed in the same process by a sibling enum column with the same cardinality, first and last value but the middle values rotated; a 14-cell core in all sequences of 3 through ilike and through the zero-alloc ToUpper directly with 4 buffer sizes. " +
+			"patterns: ALL strings of length <= 3 over the alphabet plus '%' (incl. empty, %, %%, regex metacharacters, invalid regex) plus long patterns; comparators like and ilike; as string column (cells in ascending, descending and interleaved length order, because the case-insensitive matcher reuses one buffer across cells) and as enum column in chunks of 254 values, each followed in the same process by a sibling enum column with the same cardinality, first and last value but the middle values rotated; valid and invalid patterns on degenerate columns (no rows, all null, rows already selected by an earlier Or sub-clause, filtered down to nulls); a 14-cell core in all sequences of 3 through ilike and through the zero-alloc ToUpper directly with 4 buffer sizes. " +
 			"Oracle: the statement's rules (literal match after trimming one leading/trailing %, strings.ToUpper for ilike, Go regexp anchored per missing % with (?i) for ilike when the pattern has metacharacters, compile error => Err, nulls never match). Every Filter call evaluates ~2700 cells; all cases non-trivial, distinct by content.",
 		Assumptions: []string{
 			"strings.ToUpper and Go's regexp are the reference for Unicode upper-casing and regular expressions",
